@@ -3,7 +3,7 @@
    than `max` elements (max derived from =, <, <=, one_of count filters) and it truncates a fold to
    `min` elements (`take(min)`, min derived from >, >= count filters) when it believes nothing observes
    the count or the contents. *)
-From TF Require Import Exec Sem Sim SimComp SimFold SimGen FoldLimits Run.
+From TF Require Import Exec Sem Sim SimComp SimOut SimFold SimGen SimFull FoldLimits Run.
 Local Open Scope string_scope.
 
 (* Maximum side, for every sign and magnitude of the arguments (negative values clamp to 0, `<` uses
@@ -32,29 +32,52 @@ Theorem C22_early_termination_invisible_without_min_truncation :
 Proof. intros re g args Hi. exact (compute_component_spec re g args Hi). Qed.
 Print Assumptions C22_early_termination_invisible_without_min_truncation.
 
-(* Minimum side: the full statement
-     forall q args g, interpret re g args q ~ sem re g args q          (rows as multisets)
-   is FALSE of the faithful model, because the eligibility test for take(min) only looks at count
-   outputs, own-component vertex filters tagging the count, and the fold's own-component outputs
-   (genuine defect F9): outputs of folds nested inside the fold, and count tags used by sibling folds (in their count
-   filters or imported into them), still observe the truncated fold. *)
+(* ... and the same at the level of result rows, for whole queries: the interpreter model WITH the
+   maximum early termination returns exactly the rows of the specification, which has no limits.
+   (wf_out / NoDup: output keys and names distinct, guaranteed by the frontend.) *)
+Theorem C22_max_early_termination_invisible_in_rows :
+  forall re g args q rows, ty_indep g ->
+    wf_comp args [] (q_comp q) -> wf_out (q_comp q) -> NoDup (all_output_names (q_comp q)) ->
+    interpret re g args q = Ok rows ->
+    Forall2 row_equiv rows (sem re g args q).
+Proof. intros re g args q rows Hi. exact (interpret_spec re g args Hi q rows). Qed.
+Print Assumptions C22_max_early_termination_invisible_in_rows.
+
+(* Minimum side.  take(min) is applied only to folds passing `min_eligible` (Exec.v): no output at any
+   depth inside the fold, no count output, and no use of the count tag by a filter of the parent
+   component's vertices, by a count filter of one of the parent component's folds, or inside one of
+   those folds (import).  Before the repair of genuine defect F9 the test looked only at the fold's OWN
+   outputs and at vertex filters; the two worlds below are the witnesses that refuted invisibility then
+   (the model and the real engine returned `o1=[]`, resp. no rows).  They are kept as regression
+   examples: with the repaired test both folds are ineligible and the model agrees with the
+   specification.  A proof that truncating an ELIGIBLE fold is invisible is still missing
+   (the theorems above cover queries without eligible folds); eligible worlds are decided against the
+   specification by the oracle cases of every run, and C22_min_truncation_eligible_example is one. *)
 (* F9a: a fold whose only outputs are inside a NESTED fold, with count filter `>= $a`, a = 0:
-   take(0) empties the outer fold, and the nested output list is lost. *)
+   take(0) emptied the outer fold, and the nested output list was lost. *)
 Definition f9a_exec := run_exec (re_table [] []) (mkDS [(1%N, "Gadget")] [(1%N, [("flag", (Boolv true)); ("id", (I64 1%Z)); ("name", (Str "a")); ("nums", (List [(I64 (-9223372036854775808)%Z)])); ("power", (I64 4%Z)); ("ratio", (F64 0%N)); ("score", (I64 (-3)%Z)); ("tags", (List [(Str "ba")]))])] [(1%N, [("gears", [1%N; 1%N; 1%N]); ("next", [1%N; 1%N])])] [("Box", []); ("Gadget", [1%N]); ("Item", []); ("Leaf", []); ("Thing", [1%N])] [("Thing", ["Box"; "Leaf"; "Gadget"]); ("Item", ["Box"; "Leaf"]); ("Box", ["Box"]); ("Leaf", ["Leaf"]); ("Gadget", ["Gadget"])]) (mkRQ "Thing" [("hi", Null); ("lo", Null)] (RComp 1%N [(mkV 1%N "Thing" None [])] [] [(RFold (mkFH 1%N 1%N 2%N "next" [("hi", (I64 1000%Z)); ("lo", Null)] [] [] [(mkPF GreaterThanOrEqual (Some (AVar "a" (mkTy "Int" 1%N))))]) (RComp 2%N [(mkV 2%N "Thing" None [(mkVF IsNotNull "flag" (mkTy "Boolean" 0%N) None)])] [] [(RFold (mkFH 2%N 2%N 3%N "next" [("hi", (I64 1000%Z)); ("lo", Null)] [] [] []) (RComp 3%N [(mkV 3%N "Thing" None [])] [] [] [("o1", (mkCF 3%N "id" (mkTy "Int" 1%N)))]))] []))] [("o0", (mkCF 1%N "id" (mkTy "Int" 1%N)))]) [("a", (mkTy "Int" 1%N))]) [("a", (I64 0%Z))].
 Definition f9a_sem := run_sem (re_table [] []) (mkDS [(1%N, "Gadget")] [(1%N, [("flag", (Boolv true)); ("id", (I64 1%Z)); ("name", (Str "a")); ("nums", (List [(I64 (-9223372036854775808)%Z)])); ("power", (I64 4%Z)); ("ratio", (F64 0%N)); ("score", (I64 (-3)%Z)); ("tags", (List [(Str "ba")]))])] [(1%N, [("gears", [1%N; 1%N; 1%N]); ("next", [1%N; 1%N])])] [("Box", []); ("Gadget", [1%N]); ("Item", []); ("Leaf", []); ("Thing", [1%N])] [("Thing", ["Box"; "Leaf"; "Gadget"]); ("Item", ["Box"; "Leaf"]); ("Box", ["Box"]); ("Leaf", ["Leaf"]); ("Gadget", ["Gadget"])]) (mkRQ "Thing" [("hi", Null); ("lo", Null)] (RComp 1%N [(mkV 1%N "Thing" None [])] [] [(RFold (mkFH 1%N 1%N 2%N "next" [("hi", (I64 1000%Z)); ("lo", Null)] [] [] [(mkPF GreaterThanOrEqual (Some (AVar "a" (mkTy "Int" 1%N))))]) (RComp 2%N [(mkV 2%N "Thing" None [(mkVF IsNotNull "flag" (mkTy "Boolean" 0%N) None)])] [] [(RFold (mkFH 2%N 2%N 3%N "next" [("hi", (I64 1000%Z)); ("lo", Null)] [] [] []) (RComp 3%N [(mkV 3%N "Thing" None [])] [] [] [("o1", (mkCF 3%N "id" (mkTy "Int" 1%N)))]))] []))] [("o0", (mkCF 1%N "id" (mkTy "Int" 1%N)))]) [("a", (mkTy "Int" 1%N))]) [("a", (I64 0%Z))].
-Theorem C22_min_truncation_observable_refuted_nested_output :
-  f9a_exec = "ROWS:o0=i1;o1=[]" /\ f9a_sem = "ROWS:o0=i1;o1=[[i1,i1],[i1,i1]]".
+Example C22_min_truncation_nested_output_regression :
+  f9a_exec = f9a_sem /\ f9a_sem = "ROWS:o0=i1;o1=[[i1,i1],[i1,i1]]".
 Proof. vm_compute. split; reflexivity. Qed.
-Print Assumptions C22_min_truncation_observable_refuted_nested_output.
+Print Assumptions C22_min_truncation_nested_output_regression.
 
 (* F9b: the count of a fold with `> $a` is tagged and used by a SIBLING fold's count filter: the
-   sibling sees the truncated count. *)
+   sibling saw the truncated count. *)
 Definition f9b_exec := run_exec (re_table [] []) (mkDS [(1%N, "Gadget"); (2%N, "Gadget"); (3%N, "Box"); (4%N, "Leaf")] [(1%N, [("flag", (Boolv false)); ("id", (I64 1%Z)); ("name", (Str (sb [195;169]%N))); ("nums", (List [Null; (U64 9223372036854775808%Z)])); ("power", (I64 2%Z)); ("ratio", (F64 4611686018427387904%N)); ("score", (I64 (-2)%Z)); ("tags", (List [(Str "abc")]))]); (2%N, [("flag", (Boolv true)); ("id", (I64 2%Z)); ("name", (Str "")); ("nums", (List [(U64 1%Z); (I64 (-9223372036854775808)%Z)])); ("power", (I64 (-9223372036854775808)%Z)); ("score", (I64 9223372036854775807%Z))]); (3%N, [("flag", (Boolv false)); ("id", (I64 3%Z)); ("label", (Str "ab")); ("name", (Str "abc")); ("nums", (List [])); ("score", (U64 18446744073709551615%Z)); ("tags", (List [(Str "a"); (Str ""); (Str "a")])); ("weight", (U64 2%Z))]); (4%N, [("flag", (Boolv true)); ("id", (I64 4%Z)); ("label", (Str "a(")); ("leafy", (Str "ba")); ("name", (Str "a")); ("nums", (List [(I64 0%Z); (I64 0%Z); (I64 0%Z)])); ("ratio", (F64 4609434218613702656%N)); ("score", (U64 3%Z)); ("tags", (List [(Str "a")])); ("weight", (I64 3%Z))])] [(1%N, [("gears", [1%N; 1%N]); ("link", [2%N]); ("next", [2%N])]); (2%N, [("gears", [1%N]); ("link", [2%N; 1%N; 1%N]); ("next", [4%N; 3%N; 3%N]); ("parent", [2%N])]); (3%N, [("inner", [3%N]); ("next", [4%N; 2%N]); ("parent", [4%N]); ("up", [3%N; 1%N])]); (4%N, [("link", [4%N; 2%N; 2%N; 4%N]); ("next", [1%N]); ("parent", [1%N]); ("peer", [4%N; 4%N]); ("up", [1%N; 2%N])])] [("Box", [3%N]); ("Gadget", [1%N; 2%N]); ("Item", [3%N; 4%N]); ("Leaf", [4%N]); ("Thing", [4%N; 3%N; 2%N; 1%N])] [("Thing", ["Box"; "Leaf"; "Gadget"]); ("Item", ["Box"; "Leaf"]); ("Box", ["Box"]); ("Leaf", ["Leaf"]); ("Gadget", ["Gadget"])]) (mkRQ "Thing" [("hi", Null); ("lo", Null)] (RComp 1%N [(mkV 1%N "Thing" None [])] [] [(RFold (mkFH 1%N 1%N 2%N "link" [] [] [] [(mkPF GreaterThan (Some (AVar "a" (mkTy "Int" 1%N))))]) (RComp 2%N [(mkV 2%N "Thing" None [(mkVF IsNotNull "flag" (mkTy "Boolean" 0%N) None)])] [] [] [])); (RFold (mkFH 2%N 1%N 3%N "link" [] [] ["o1"] [(mkPF LessThanOrEqual (Some (ATag (FRFold (mkFF 1%N 2%N)))))]) (RComp 3%N [(mkV 3%N "Thing" None [(mkVF IsNotNull "flag" (mkTy "Boolean" 0%N) None)])] [] [] []))] [("o0", (mkCF 1%N "id" (mkTy "Int" 1%N)))]) [("a", (mkTy "Int" 1%N))]) [("a", (I64 1%Z))].
 Definition f9b_sem := run_sem (re_table [] []) (mkDS [(1%N, "Gadget"); (2%N, "Gadget"); (3%N, "Box"); (4%N, "Leaf")] [(1%N, [("flag", (Boolv false)); ("id", (I64 1%Z)); ("name", (Str (sb [195;169]%N))); ("nums", (List [Null; (U64 9223372036854775808%Z)])); ("power", (I64 2%Z)); ("ratio", (F64 4611686018427387904%N)); ("score", (I64 (-2)%Z)); ("tags", (List [(Str "abc")]))]); (2%N, [("flag", (Boolv true)); ("id", (I64 2%Z)); ("name", (Str "")); ("nums", (List [(U64 1%Z); (I64 (-9223372036854775808)%Z)])); ("power", (I64 (-9223372036854775808)%Z)); ("score", (I64 9223372036854775807%Z))]); (3%N, [("flag", (Boolv false)); ("id", (I64 3%Z)); ("label", (Str "ab")); ("name", (Str "abc")); ("nums", (List [])); ("score", (U64 18446744073709551615%Z)); ("tags", (List [(Str "a"); (Str ""); (Str "a")])); ("weight", (U64 2%Z))]); (4%N, [("flag", (Boolv true)); ("id", (I64 4%Z)); ("label", (Str "a(")); ("leafy", (Str "ba")); ("name", (Str "a")); ("nums", (List [(I64 0%Z); (I64 0%Z); (I64 0%Z)])); ("ratio", (F64 4609434218613702656%N)); ("score", (U64 3%Z)); ("tags", (List [(Str "a")])); ("weight", (I64 3%Z))])] [(1%N, [("gears", [1%N; 1%N]); ("link", [2%N]); ("next", [2%N])]); (2%N, [("gears", [1%N]); ("link", [2%N; 1%N; 1%N]); ("next", [4%N; 3%N; 3%N]); ("parent", [2%N])]); (3%N, [("inner", [3%N]); ("next", [4%N; 2%N]); ("parent", [4%N]); ("up", [3%N; 1%N])]); (4%N, [("link", [4%N; 2%N; 2%N; 4%N]); ("next", [1%N]); ("parent", [1%N]); ("peer", [4%N; 4%N]); ("up", [1%N; 2%N])])] [("Box", [3%N]); ("Gadget", [1%N; 2%N]); ("Item", [3%N; 4%N]); ("Leaf", [4%N]); ("Thing", [4%N; 3%N; 2%N; 1%N])] [("Thing", ["Box"; "Leaf"; "Gadget"]); ("Item", ["Box"; "Leaf"]); ("Box", ["Box"]); ("Leaf", ["Leaf"]); ("Gadget", ["Gadget"])]) (mkRQ "Thing" [("hi", Null); ("lo", Null)] (RComp 1%N [(mkV 1%N "Thing" None [])] [] [(RFold (mkFH 1%N 1%N 2%N "link" [] [] [] [(mkPF GreaterThan (Some (AVar "a" (mkTy "Int" 1%N))))]) (RComp 2%N [(mkV 2%N "Thing" None [(mkVF IsNotNull "flag" (mkTy "Boolean" 0%N) None)])] [] [] [])); (RFold (mkFH 2%N 1%N 3%N "link" [] [] ["o1"] [(mkPF LessThanOrEqual (Some (ATag (FRFold (mkFF 1%N 2%N)))))]) (RComp 3%N [(mkV 3%N "Thing" None [(mkVF IsNotNull "flag" (mkTy "Boolean" 0%N) None)])] [] [] []))] [("o0", (mkCF 1%N "id" (mkTy "Int" 1%N)))]) [("a", (mkTy "Int" 1%N))]) [("a", (I64 1%Z))].
-Theorem C22_min_truncation_observable_refuted_sibling_tag :
-  f9b_exec = "ROWS:" /\ f9b_sem = "ROWS:o0=i4;o1=u4|o0=i2;o1=u3".
+Example C22_min_truncation_sibling_tag_regression :
+  f9b_exec = f9b_sem /\ f9b_sem = "ROWS:o0=i4;o1=u4|o0=i2;o1=u3".
 Proof. vm_compute. split; reflexivity. Qed.
-Print Assumptions C22_min_truncation_observable_refuted_sibling_tag.
+Print Assumptions C22_min_truncation_sibling_tag_regression.
+
+(* an ELIGIBLE fold (count filter `>= 2`, nothing observes the fold): the model takes only 2 elements
+   and still agrees with the specification *)
+Definition elig_exec := run_exec (re_table [] []) (mkDS [(1%N, "Gadget")] [(1%N, [("flag", (Boolv true)); ("id", (I64 1%Z)); ("name", (Str "a")); ("nums", (List [(I64 (-9223372036854775808)%Z)])); ("power", (I64 4%Z)); ("ratio", (F64 0%N)); ("score", (I64 (-3)%Z)); ("tags", (List [(Str "ba")]))])] [(1%N, [("gears", [1%N; 1%N; 1%N]); ("next", [1%N; 1%N])])] [("Box", []); ("Gadget", [1%N]); ("Item", []); ("Leaf", []); ("Thing", [1%N])] [("Thing", ["Box"; "Leaf"; "Gadget"]); ("Item", ["Box"; "Leaf"]); ("Box", ["Box"]); ("Leaf", ["Leaf"]); ("Gadget", ["Gadget"])]) (mkRQ "Thing" [("hi", Null); ("lo", Null)] (RComp 1%N [(mkV 1%N "Thing" None [])] [] [(RFold (mkFH 1%N 1%N 2%N "next" [("hi", (I64 1000%Z)); ("lo", Null)] [] [] [(mkPF GreaterThanOrEqual (Some (AVar "a" (mkTy "Int" 1%N))))]) (RComp 2%N [(mkV 2%N "Thing" None [(mkVF IsNotNull "flag" (mkTy "Boolean" 0%N) None)])] [] [] []))] [("o0", (mkCF 1%N "id" (mkTy "Int" 1%N)))]) [("a", (mkTy "Int" 1%N))]) [("a", (I64 2%Z))].
+Definition elig_sem := run_sem (re_table [] []) (mkDS [(1%N, "Gadget")] [(1%N, [("flag", (Boolv true)); ("id", (I64 1%Z)); ("name", (Str "a")); ("nums", (List [(I64 (-9223372036854775808)%Z)])); ("power", (I64 4%Z)); ("ratio", (F64 0%N)); ("score", (I64 (-3)%Z)); ("tags", (List [(Str "ba")]))])] [(1%N, [("gears", [1%N; 1%N; 1%N]); ("next", [1%N; 1%N])])] [("Box", []); ("Gadget", [1%N]); ("Item", []); ("Leaf", []); ("Thing", [1%N])] [("Thing", ["Box"; "Leaf"; "Gadget"]); ("Item", ["Box"; "Leaf"]); ("Box", ["Box"]); ("Leaf", ["Leaf"]); ("Gadget", ["Gadget"])]) (mkRQ "Thing" [("hi", Null); ("lo", Null)] (RComp 1%N [(mkV 1%N "Thing" None [])] [] [(RFold (mkFH 1%N 1%N 2%N "next" [("hi", (I64 1000%Z)); ("lo", Null)] [] [] [(mkPF GreaterThanOrEqual (Some (AVar "a" (mkTy "Int" 1%N))))]) (RComp 2%N [(mkV 2%N "Thing" None [(mkVF IsNotNull "flag" (mkTy "Boolean" 0%N) None)])] [] [] []))] [("o0", (mkCF 1%N "id" (mkTy "Int" 1%N)))]) [("a", (mkTy "Int" 1%N))]) [("a", (I64 2%Z))].
+Example C22_min_truncation_eligible_example : elig_exec = elig_sem /\ elig_sem = "ROWS:o0=i1".
+Proof. vm_compute. split; reflexivity. Qed.
+Print Assumptions C22_min_truncation_eligible_example.
 
 (* non-vacuity of the max-limit theorem: count filter `<= 1` gives max 1; a 2-element fold fails it *)
 Example C22_max_limit_nonvacuous :
